@@ -1256,6 +1256,11 @@ class Exec:
                 targs = site.trait_args.lstrip('&').replace('mut ', '').strip() if site.trait_args else site.trait_args
                 b = prog.find_method(tyc, site.trait, site.method, targs)
                 nref = len(site.self_ty) - len(site.self_ty.lstrip('&'))
+                if b is not None and nref:
+                    # the crate implements the trait on the reference type itself (`impl Div for &Unit`): self is passed as it is
+                    mm = re.search(r'<impl at ([^:>]+):(\d+):(\d+): \d+:\d+>', b.name)
+                    info = prog.src.impl_at(mm.group(1), int(mm.group(2)), int(mm.group(3))) if mm and mm.group(1).startswith('src/') else None
+                    if info and isinstance(info[3], str) and len(info[3].strip()) - len(info[3].strip().lstrip('&')) >= nref: return ('body', b)
                 if b is not None and nref and prog.typedef(tyc) is not None:
                     # blanket impls on references (`impl PartialEq<&B> for &A`, `Display for &T`) forward to the referent
                     return ('body_deref', b, nref, site.trait in ('PartialEq', 'PartialOrd', 'Ord'))
